@@ -47,12 +47,30 @@ class World:
         self.owned.append([node_id, label, arr, compare.fingerprint_array(arr), np.array(arr, copy=True)])
         return arr
 
+    @staticmethod
+    def _seq_fp(seq, orig):
+        """order and identity of the elements of a caller-owned list, relative to what was handed over (deterministic text)"""
+        out = []
+        for x in seq:
+            if hasattr(x, "__dict__") or isinstance(x, np.ndarray):
+                out.append("obj%s" % next((i for i, y in enumerate(orig) if y is x), "-new"))
+            else:
+                out.append(repr(x))
+        return "seq[" + ",".join(out) + "]"
+
+    def own_seq(self, node_id, label, seq):
+        """a caller-owned LIST handed to a constructor or a query (the list of linear objects, a list of coordinates): the library
+        must not reorder, extend or shrink it"""
+        saved = list(seq)
+        self.owned.append([node_id, label, seq, self._seq_fp(seq, saved), saved])
+        return seq
+
     def check_owned(self):
-        """-> list of (node_id, label) whose caller-owned array changed since it was handed over"""
+        """-> list of (node_id, label) whose caller-owned array / list changed since it was handed over"""
         bad = []
         for rec in self.owned:
             node_id, label, arr, fp, saved = rec
-            now = compare.fingerprint_array(arr)
+            now = self._seq_fp(arr, saved) if isinstance(arr, list) else compare.fingerprint_array(arr)
             if now != fp:
                 bad.append((node_id, label, fp, now, rec))
         return bad
@@ -61,7 +79,10 @@ class World:
     def restore_owned(rec):
         """Undo a mutation of a caller-owned array (used only after a listed KNOWN finding, so that the rest of the run
         explores from the state the property promises instead of cascading from the known defect)."""
-        rec[2][...] = rec[4]
+        if isinstance(rec[2], list):
+            rec[2][:] = rec[4]
+        else:
+            rec[2][...] = rec[4]
 
     # -- construction -------------------------------------------------------------------------------
 
@@ -399,7 +420,8 @@ class World:
             kw["preloads"] = self.n(s["preloads"])
         if s.get("profile"):
             kw["run_time_dict"] = {}
-        return aa.Inversion(dataset=self.n(s["dataset"]), linear_obj_list=[self.n(o) for o in s["objs"]], **kw)
+        objs = self.own_seq(s["id"], "linear_obj_list", [self.n(o) for o in s["objs"]])
+        return aa.Inversion(dataset=self.n(s["dataset"]), linear_obj_list=objs, **kw)
 
     def _b_fit_imaging(self, s):
         import autoarray as aa
